@@ -182,8 +182,37 @@ def rename_fact(f, ren):
     return (sub(f[0]), f[1], sub(f[2]))
 
 
+WRAP_RX = re.compile(r"^[\w<>:, ]*?(?:Try>?::branch|Result::map_err|Result::map|Result::ok|Option::ok_or_else|Option::ok_or|Option::map)\((.*)\)$")
+POLARITY = {"Continue": "+", "Ok": "+", "Some": "+", "Break": "-", "Err": "-", "None": "-"}
+
+
+def core_fact(f):
+    """`Try::branch(Result::map_err(X)) is Continue`, `Result::map_err(X) is Ok` and `X is Ok` state the same thing about X: variant tests
+    are compared modulo the polarity-preserving adaptors (`?`, map_err, map, ok, ok_or) - they disappear when an `?` chain is inlined
+    or rewritten as a match"""
+    if len(f) != 3 or f[1] != "is" or f[2] not in POLARITY:
+        return None
+    subj = str(f[0])
+    for _ in range(6):
+        m = WRAP_RX.match(subj)
+        if not m:
+            break
+        inner, depth = m.group(1), 0
+        for i, ch in enumerate(inner):
+            depth += ch in "(<[" 
+            depth -= ch in ")>]"
+            if ch == "," and depth == 0:
+                inner = inner[:i]
+                break
+        subj = inner.strip()
+    return (subj, "is", POLARITY[f[2]])
+
+
 def holds(need, dom):
-    return tuple(need) in dom or k6.canon(*need) in dom
+    if tuple(need) in dom or k6.canon(*need) in dom:
+        return True
+    c = core_fact(tuple(need))
+    return c is not None and any(core_fact(tuple(d)) == c for d in dom)
 
 
 def missing_facts(needs, dom, fn):
@@ -389,6 +418,38 @@ GROW_RX = (r"(Vec|VecDeque|BytesMut)(<.*>)?::(push|push_back|extend|extend_from_
            r"BufMut>?::put\w*$|Extend(<.*>)?>?::extend$")
 
 
+FINITE_SRC_RX = re.compile(r"IntoIterator>?::into_iter$|::(iter|iter_mut|drain|keys|values|into_keys|into_values|split|lines|chunks|windows)$|"
+                           r"Iterator>?::(filter_map|map|filter|enumerate|zip|take|skip|chain|cloned|copied|rev|peekable|take_while|skip_while|by_ref|next)$")
+
+
+def finite_iteration(fn, c):
+    """the growth site `c` runs once per item of an in-memory collection: its innermost loop is a `for` whose iterator is built from
+    into_iter / iter / adaptors over parameters, fields and locals - not a range, a generator or a `loop` / `while` on decoded data"""
+    from common import for_loops
+    best = None
+    for L in for_loops(fn):
+        nx, sw, none_l, some_l = L
+        body = fn.reach([n for n, l in fn.succs(sw[0]) if l in some_l], avoid=[nx.node])
+        if c.node in body and (best is None or len(body) < best[1]):
+            best = (L, len(body))
+    if best is None:
+        return False
+    nx = best[0][0]
+    # not inside a further (non-`for`) loop nested in the body
+    if c.node in fn.reach([c.node], after=True, avoid=[nx.node]):
+        return False
+    pl = nx.args[0].get("m") or nx.args[0].get("c")
+    from common import ref_local
+    it = ref_local(fn, nx.args[0])
+    ty = fn.locals[it] if it is not None else ""
+    if not ty or re.search(r"ops::Range|iter::(Repeat|Successors|FromFn|RepeatWith|Cycle|Once)", ty):
+        return False
+    rs = fn.roots(nx.args[0])
+    calls = [r[1] for r in rs if r[0] in ("call", "mutcall")]
+    return bool(calls) and all(FINITE_SRC_RX.search(x) for x in calls) and any(r[0] in ("param", "field", "place", "upvar") for r in rs) \
+        and not any(r[0] == "const" for r in rs)
+
+
 def r19_2b(ctx, fx, seen):
     """growth inside a loop of the decoder closure must be listed with its bound"""
     n = 0
@@ -406,6 +467,11 @@ def r19_2b(ctx, fx, seen):
             ords[nm] += 1
             key = "%s|grow:%s#%d" % (fn_short(k), nm, ords[nm])
             ent = GROWTH.get(key)
+            if ent is None and finite_iteration(fn, c):
+                ctx.ob("R19.2", "%s|growth-per-item-of-an-in-memory-collection#%d" % (fn_short(k), sum(ords.values())), True, site=fn.site(c.node), cfg=fx.cfg,
+                       detail="the innermost loop around the site is a `for` over an in-memory collection (no range, no generator): the container gains "
+                              "a constant number of entries per item that already exists")
+                continue
             if ent is None:
                 ctx.ob("R19.2", "unbounded-growth:" + key, False, site=fn.site(c.node), cfg=fx.cfg,
                        detail="a container grows inside a loop of the decoder closure without a listed bound; dominating facts: %s" % sorted(fact_str(x) for x in fs.dominating(c.node))[:6])
